@@ -4,7 +4,7 @@
    state, decompressedOffset): it seeks to the frame start and resets. *)
 From Coq Require Import NArith ZArith List Bool Lia.
 From ZV.Gen Require Import Gen_Seek.
-From ZV.Seek Require Import SeekTable SeekBase SeekTableProofs SeekReader SeekReaderProofs.
+From ZV.Seek Require Import SeekTable SeekBase SeekTableProofs SeekReader SeekReaderProofs SeekReaderOld3.
 Import ListNotations.
 Local Open Scope N_scope.
 Ltac Zify.zify_post_hook ::= Z.to_euclidean_division_equations.
@@ -95,4 +95,114 @@ Qed.
 Lemma reinit_keeps_invariant content t prev : wf_table t -> Inv content t (reinit_state prev).
 Proof.
   intros W. right. right. right. cbn [reinit_state nowhere r_cur]. pose proof (wf_small t W). lia.
+Qed.
+
+(* ------------------------------------------------------------------ fix a2a0322: corruption_detected forgets the position *)
+Lemma offset_to_frame_no_err t pos c : offset_to_frame t pos <> Err c.
+Proof.
+  unfold offset_to_frame.
+  destruct (negb (in_range t (t_len t))); [discriminate|].
+  destruct (e_d (ent t (t_len t)) <=? pos); [discriminate|].
+  generalize (w32 (t_len t)). generalize 0. generalize (o2f_fuel t).
+  induction n as [|f IH]; intros lo hi; cbn [o2f_loop].
+  - destruct (w32 (lo + 1) <? hi); discriminate.
+  - destruct (w32 (lo + 1) <? hi); [|discriminate].
+    destruct (negb (in_range t (w32 (lo + sub32 hi lo / 2)))); [discriminate|].
+    destruct (e_d (ent t (w32 (lo + sub32 hi lo / 2))) <=? pos); apply IH.
+Qed.
+
+Lemma prelude_no_err t offset st target c : prelude t offset st target <> Err c.
+Proof.
+  unfold prelude, restart.
+  destruct (negb (target =? r_cur st) || (offset <? r_doff st)); [|discriminate].
+  destruct (negb (in_range t target)); discriminate.
+Qed.
+
+Lemma codes_differ : sk_E_seekableIO <> sk_E_corruption_detected.
+Proof. vm_compute. discriminate. Qed.
+
+Section CorruptionForgets.
+  Variable H : list N -> N.
+  Variable content : N -> list N.
+  Variables BUFF NOPROG : N.
+  Variable t : seek_table.
+  Variable sfc : bool.
+
+  Lemma rloop_corruption_forgets offset len : forall orc st target np dst d st',
+    rloop H content BUFF NOPROG t sfc offset len orc st target np dst = RErr sk_E_corruption_detected d st' ->
+    r_cur st' = 4294967295.
+  Proof.
+    induction orc as [|o orc IH]; intros st target np dst d st' E; cbn [rloop] in E.
+    - destruct (loop_cond t offset len st target) as [[|]|c|s]; try discriminate E.
+      destruct (r_doff st =? w64 (offset + len)); discriminate E.
+    - destruct (loop_cond t offset len st target) as [[|]|c|s]; try discriminate E.
+      2:{ destruct (r_doff st =? w64 (offset + len)); discriminate E. }
+      destruct (negb (in_range t (w32 (target + 1)))); [discriminate E|].
+      match type of E with context [if ?c then RTrap 52 else _] => destruct c; [discriminate E|] end.
+      match type of E with context [dcall content ?a ?b ?c] => destruct (dcall content a b c) as [[bytes fin] st1] end.
+      match type of E with context [if ?c then RErr sk_E_seekableIO _ _ else _] => destruct c end.
+      { exfalso. injection E as E0 _ _. discriminate E0. }
+      destruct fin.
+      + destruct (negb (in_range t target)); [discriminate E|].
+        match type of E with context [if ?c then RErr sk_E_corruption_detected _ (forget_position ?s) else _] => destruct c end.
+        { injection E as _ <-. reflexivity. }
+        match type of E with context [if ?c then match offset_to_frame _ _ with _ => _ end else _] => destruct c end.
+        * match type of E with context [offset_to_frame t ?p] => destruct (offset_to_frame t p) as [tg|c|s] eqn:Eo end.
+          -- match type of E with context [if ?c then RErr sk_E_corruption_detected _ _ else _] => destruct c end.
+             { injection E as _ <-. reflexivity. }
+             match type of E with context [prelude t offset ?a ?b] => destruct (prelude t offset a b) as [st3|c|s] eqn:Ep end.
+             ++ eapply IH; exact E.
+             ++ elim (prelude_no_err _ _ _ _ _ Ep).
+             ++ discriminate E.
+          -- elim (offset_to_frame_no_err _ _ _ Eo).
+          -- discriminate E.
+        * match type of E with context [if ?c then ROk _ _ _ else _] => destruct c; discriminate E end.
+      + eapply IH; exact E.
+  Qed.
+
+  (* ZSTD_seekable_decompress / decompressFrame returning corruption_detected leave curFrame = (U32)-1: EVERY table (well formed or
+     not), content, hash, pacing, state, arguments *)
+  Lemma corruption_return_forgets st dst len offset orc d st' :
+    seekable_decompress H content BUFF NOPROG t sfc st dst len offset orc = RErr sk_E_corruption_detected d st' ->
+    r_cur st' = 4294967295.
+  Proof.
+    unfold seekable_decompress. intros E.
+    destruct (negb (in_range t (t_len t))); [discriminate E|].
+    destruct (e_d (ent t (t_len t)) <=? offset); [discriminate E|].
+    destruct (offset_to_frame t offset) as [tg|c|s] eqn:Eo; [|elim (offset_to_frame_no_err _ _ _ Eo)|discriminate E].
+    destruct (prelude t offset st (w32 tg)) as [st1|c|s] eqn:Ep; [|elim (prelude_no_err _ _ _ _ _ Ep)|discriminate E].
+    eapply rloop_corruption_forgets; exact E.
+  Qed.
+End CorruptionForgets.
+
+(* ---- witness for the code before a2a0322 (rloop_keep): table of two frames, no checksums, entry 0 announces 24 bytes, the frame
+   holds 16.  Call 1 reads [0, 24): the frame completes after 16 bytes -> corruption_detected, position (frame 0, offset 16)
+   kept, decoder at the start of the next frame.  Call 2 reads [16, 20) - inside frame 0 for the table -: the old loop
+   continues and returns the first four bytes of frame 1 as success; a fresh reader answers corruption_detected for the same
+   call, and so does the current model after the same first call. *)
+Definition st_t : seek_table := mkT [mkE 0 0 0; mkE 25 24 0; mkE 50 40 0] 2 false.
+Definition st_content (i : N) : list N :=
+  if i =? 0 then [0;1;2;3;4;5;6;7;8;9;10;11;12;13;14;15]
+  else if i =? 1 then [100;101;102;103;104;105;106;107;108;109;110;111;112;113;114;115] else [].
+Definition st_H (l : list N) : N := 0.
+Definition st_after_first_keep : rstate :=
+  match seekable_decompress_keep st_H st_content 64 16 st_t true rinit (repeat 165 24) 24 0 [(16, true)] with
+  | RErr _ _ st => st | _ => rinit end.
+Definition st_after_first_now : rstate :=
+  match seekable_decompress st_H st_content 64 16 st_t true rinit (repeat 165 24) 24 0 [(16, true)] with
+  | RErr _ _ st => st | _ => rinit end.
+
+Lemma corruption_return_before_fix_reads_next_frame :
+  (exists d st, seekable_decompress_keep st_H st_content 64 16 st_t true rinit (repeat 165 24) 24 0 [(16, true)]
+                = RErr sk_E_corruption_detected d st /\ r_cur st = 0 /\ r_doff st = 16) /\
+  (exists st', seekable_decompress_keep st_H st_content 64 16 st_t true st_after_first_keep [165;165;165;165] 4 16 [(4, false)]
+               = ROk 4 [100; 101; 102; 103] st') /\
+  (exists d st', seekable_decompress_keep st_H st_content 64 16 st_t true rinit [165;165;165;165] 4 16 [(16, true)]
+               = RErr sk_E_corruption_detected d st') /\
+  (exists d st', seekable_decompress st_H st_content 64 16 st_t true st_after_first_now [165;165;165;165] 4 16 [(16, true)]
+               = RErr sk_E_corruption_detected d st').
+Proof.
+  split; [eexists; eexists; vm_compute; repeat split; reflexivity|].
+  split; [eexists; vm_compute; reflexivity|].
+  split; eexists; eexists; vm_compute; reflexivity.
 Qed.
